@@ -4,6 +4,7 @@ import (
 	"bytes"
 	"fmt"
 	"reflect"
+	"strings"
 	"testing"
 
 	"free5gclib/nas"
@@ -312,17 +313,26 @@ func c10Oracle(c c10Case) (v ev.Verdict) {
 		var got *nas.Message
 		var derr error
 		cls["via:"+op.Via] = true
-		perr, site := ev.Guard(func() error {
-			if op.Via == "GetNasPdu" {
-				got = tglib.GetNasPdu(ue, buildDLTransport(wire, op.Pos, op.Other))
-				if got == nil {
-					derr = fmt.Errorf("GetNasPdu returned nil")
+		var perr error
+		var site string
+		printed := captureStdout(func() {
+			perr, site = ev.Guard(func() error {
+				if op.Via == "GetNasPdu" {
+					got = tglib.GetNasPdu(ue, buildDLTransport(wire, op.Pos, op.Other))
+					if got == nil {
+						derr = fmt.Errorf("GetNasPdu returned nil")
+					}
+				} else {
+					got, derr = tglib.NASDecode(ue, nas.GetSecurityHeaderType(wire), wire)
 				}
-			} else {
-				got, derr = tglib.NASDecode(ue, nas.GetSecurityHeaderType(wire), wire)
-			}
-			return nil
+				return nil
+			})
 		})
+		// Observation only (the property is about the recovered message and the COUNT, and NASDecode does not return
+		// the outcome of its MAC check): does the UE *report* a MAC failure for a message whose MAC is right?
+		if protected && strings.Contains(printed, "NAS MAC verification failed") {
+			cls["observation: UE printed 'NAS MAC verification failed' for a correctly protected message"] = true
+		}
 		desc := fmt.Sprintf("%s, header type %d, DL NAS COUNT %#06x (previous %#06x), NIA%d/NEA%d", op.Msg.Kind, op.HT, used, last, ctx.IA, ctx.EA)
 		// the COUNT estimate first: a wrong estimate is the root cause of whatever happens to the payload
 		if g := ue.DLCount.Get(); g != used {
